@@ -41,6 +41,33 @@ type c10Job struct {
 	desc string
 	s2   sdf.SDF2
 	s3   sdf.SDF3
+	gate *c10Gate // optional: operands wrapped with it hold their callers until `need` of them are inside at once
+}
+
+// c10Gate makes "many goroutines inside the same combinator at the same moment" a certainty instead of a matter of
+// scheduling: while armed, every Evaluate passing through a gated operand waits (at most 2 ms) until `need` callers are inside.
+type c10Gate struct {
+	need   atomic.Int32
+	inside atomic.Int32
+}
+
+type gatedSDF2 struct {
+	s sdf.SDF2
+	g *c10Gate
+}
+
+func (w *gatedSDF2) BoundingBox() sdf.Box2 { return w.s.BoundingBox() }
+func (w *gatedSDF2) Evaluate(p v2.Vec) float64 {
+	if need := w.g.need.Load(); need > 0 {
+		w.g.inside.Add(1)
+		for t0 := time.Now(); w.g.inside.Load() < need && time.Since(t0) < 2*time.Millisecond; {
+			runtime.Gosched()
+		}
+		v := w.s.Evaluate(p)
+		w.g.inside.Add(-1)
+		return v
+	}
+	return w.s.Evaluate(p)
 }
 
 func shardC10(c *Ctx, shard, nshards int) {
@@ -180,7 +207,14 @@ func shardC10(c *Ctx, shard, nshards int) {
 			}
 			ops = append(ops, sdf.Transform2D(l.s2, m))
 		}
-		run(c10Job{fmt.Sprintf("Union2D[%d operands, some scaled non-uniformly]", n), sdf.Union2D(ops...), nil}, false)
+		var gate *c10Gate
+		if i%2 == 0 { // every operand behind one gate: all callers are inside the union at the same time
+			gate = &c10Gate{}
+			for j := range ops {
+				ops[j] = &gatedSDF2{ops[j], gate}
+			}
+		}
+		run(c10Job{desc: fmt.Sprintf("Union2D[%d operands, some scaled non-uniformly, gated=%v]", n, gate != nil), s2: sdf.Union2D(ops...), gate: gate}, false)
 	}
 	// shared sub-expressions: one cached profile object used twice in a model, once directly and once through a second
 	// Cache2D around it (a helper that caches whatever it is given)
@@ -288,6 +322,9 @@ func c10Hammer(c *Ctx, j c10Job, nPts, reps int) {
 		if rep%2 == 1 {
 			W = 2*W + 3
 		}
+		if j.gate != nil {
+			j.gate.need.Store(int32(W))
+		}
 		for w := 0; w < W; w++ {
 			wg.Add(1)
 			order := c.Rng("order", j.desc, rep, w).Perm(nPts)
@@ -309,6 +346,9 @@ func c10Hammer(c *Ctx, j c10Job, nPts, reps int) {
 			}(order)
 		}
 		wg.Wait()
+		if j.gate != nil {
+			j.gate.need.Store(0)
+		}
 	}
 	c.Eval(nPts * reps * W)
 	if mismatch > 0 {
